@@ -17,10 +17,14 @@ a try body, yield, return, raise, loop, try, with) under `if`s, in which every e
   * straight-line dataflow: a local bound to a side-effect free expression is replaced by that expression at its uses (temporaries do not
     matter, nor does the order of independent pure assignments); unused pure bindings disappear; a name bound (possibly several times) inside
     a loop body, each time before it is read, is a temporary of that iteration;
-  * whatever is about to change is settled first: before a variable is rebound, an object mutated (store, mutator call, statement call), or a
-    loop / try / with entered that may do either, every pending expression that mentions it is bound to a variable of its own; an alias
-    (`b = a`) keeps the value when `a` is rebound and stays an alias when the object is only mutated; rebinding a name a nested function
-    reads settles the results of earlier calls;
+  * whatever is about to change is settled first: before a variable is rebound, an object mutated (store; a mutating method called anywhere
+    in a statement's own expressions -- `u = ms.pop()`, `return (ms.append(1), t)`, `if stack.pop():`, `[c.add(1) for c in both]`; a call made
+    as a statement: the object it is a method of and everything it is given), or a loop / try / with entered that may do either, every pending
+    expression that mentions it is bound to a variable of its own; an alias (`b = a`) keeps the value when `a` is rebound and stays an alias when
+    the object is only mutated; the variable of a `for` loop may be (part of) anything the iterable holds -- a mutation through it settles what was
+    read from the iterable's root, except the iterable path itself and its prefixes (`t.subgroup` is still that object); rebinding a name a
+    nested function reads settles the results of earlier calls; the two arms of a conditional are explored from the same knowledge (what one arm
+    makes uncertain or aliases is no business of the other) and both arms' uncertainties hold afterwards;
   * conditionals: tests are made positive (`not`, `!=`, `is not`, `not in` swap the arms; of a connective and its De Morgan dual the one with
     fewer negated operands is kept; comparisons of evidently integer values use `<` only; the truth value of a list display is `len != 0`);
     when an arm of an `if` can leave the block, or has effects and leaves different live bindings behind, the statements after the `if` are
@@ -37,12 +41,14 @@ a try body, yield, return, raise, loop, try, with) under `if`s, in which every e
   * module-level names bound once to a number literal are replaced by the literal;
   * docstrings, `pass`, and the message text of `raise X(msg)` / `warnings.warn(msg)` are dropped (exception and warning *types* stay);
   * variables that stay variables are numbered by first occurrence in the finished form, comprehension variables by position.
-Assumptions: evaluating an expression other than a call of a mutating method has no side effect whose order matters and does not raise --
-so it may be evaluated later, on another path, or (when nothing uses it) not at all; inside a `try` body with handlers this is *not* assumed
-(every evaluation there is kept as an effect in its place); `*` commutes (numbers, arrays, quantities); real-number algebra (re-association
+Assumptions: evaluating an expression other than a call of a mutating method (MUTATORS, IMPURE_FUNCS) has no side effect whose order matters
+and does not raise -- so it may be evaluated later, on another path, or (when nothing uses it) not at all; in particular a call whose *value is
+used* (`u = g(ms)`, `self.refresh() + 1`) is taken not to change what other expressions read, and attribute / item reads are plain field reads
+(no properties with effects); inside a `try` body with handlers the no-raise part is *not* assumed (every evaluation there is kept as an
+effect in its place); `*` commutes (numbers, arrays, quantities); real-number algebra (re-association
 may change the last bits of a floating point result); unpacking `a, b = e` reads e[0], e[1]; a generator expression is consumed where it is
-written.  tools/nf_fuzz.py tests "equal normal forms => same behaviour" by executing generated programs; tools/mutscan.py NFCHECK and
-tools/nf_twins.py probe it on the package's own functions.
+written.  tools/nf_fuzz.py tests "equal normal forms => same behaviour" by executing generated programs; tools/nf_regress.py keeps the pairs
+that were once conflated apart; tools/mutscan.py NFCHECK and tools/nf_twins.py probe it on the package's own functions.
 """
 from __future__ import annotations
 
@@ -87,6 +93,12 @@ def _literal_seq(n):
 
 def _bound_names(t) -> set:
     return {x.id for x in ast.walk(t) if isinstance(x, ast.Name)}
+
+
+def _next_bound_index(benv):
+    """index for a newly bound comprehension / lambda variable: above every index in use (counting the entries is not enough: an inner
+    comprehension that re-uses the names of the outer one replaces their entries, and two of its variables would share an index)"""
+    return 1 + max((x[1] for x in benv.values() if isinstance(x, tuple) and len(x) == 2 and x[0] == "c" and isinstance(x[1], int)), default=-1)
 
 
 class Normaliser:
@@ -152,6 +164,7 @@ class Normaliser:
                     self.mutated.add(r)
         self.mutated |= _mutated_names(fn, self._root)
         self.alias: Dict[str, str] = {}   # dynamic: closed names that may denote the same object (union-find)
+        self.item_paths: Dict[str, set] = {}   # closed loop variable -> dumps of the path it ranges over and of that path's prefixes
 
     def alias_find(self, x):
         a = self.alias
@@ -453,7 +466,7 @@ class Normaliser:
             ps = []
             a = n.args
             for p in a.posonlyargs + a.args + a.kwonlyargs + ([a.vararg] if a.vararg else []) + ([a.kwarg] if a.kwarg else []):
-                v = ("c", sum(1 for x in e2.values() if isinstance(x, tuple) and x and x[0] == "c"))
+                v = ("c", _next_bound_index(e2))
                 e2[p.arg] = v
                 ps.append(v)
             return ("lambda", tuple(ps), tuple(self.ex(d, benv) for d in a.defaults), self.ex(n.body, e2))
@@ -470,7 +483,7 @@ class Normaliser:
 
     def bind_target(self, t, benv):
         if isinstance(t, ast.Name):
-            v = ("c", sum(1 for x in benv.values() if isinstance(x, tuple) and x and x[0] == "c"))
+            v = ("c", _next_bound_index(benv))
             benv[t.id] = v
             return v
         if isinstance(t, (ast.Tuple, ast.List)):
@@ -510,10 +523,25 @@ class Normaliser:
         args = [self.ex(a, benv) for a in n.args]
         if (fname in CONSUMERS or (isinstance(f, ast.Attribute) and f.attr == "join")) and args and isinstance(args[0], tuple) and args[0] and args[0][0] == "comp" and args[0][1] == "list":
             args[0] = ("comp", "gen") + args[0][2:]   # the consumer only iterates: a list comprehension and a generator expression coincide
+        if fname == "reduce" and len(args) >= 2 and isinstance(args[1], tuple) and args[1] and args[1][0] == "comp" and args[1][1] == "list":
+            args[1] = ("comp", "gen") + args[1][2:]   # reduce(f, [..]) only iterates its second argument
         if fname in ("isinstance", "issubclass") and len(args) == 2 and isinstance(args[1], tuple) and len(args[1]) == 2 and args[1][0] == "Tuple" and len(args[1][1]) == 1:
             args[1] = args[1][1][0]   # a one-element tuple of classes is that class
         if fname in ("list", "set") and fname not in benv and len(args) == 1 and not n.keywords and isinstance(args[0], tuple) and args[0] and args[0][0] == "comp" and args[0][1] in ("gen", "list"):
             return ("comp", fname) + args[0][2:]   # list(e for ...) is [e for ...]
+        if fname in ("dict", "OrderedDict") and fname not in benv and len(args) == 1 and not n.keywords and isinstance(args[0], tuple) and len(args[0]) == 4 and args[0][0] == "comp":
+            c_ = args[0]
+            if c_[1] in ("gen", "list") and isinstance(c_[2], tuple) and len(c_[2]) == 2 and c_[2][0] == "Tuple" and len(c_[2][1]) == 2:
+                # a mapping built from (key, value) pairs is the mapping built entry by entry: same keys, same order, the last value of a repeated key
+                args[0] = c_ = ("comp", "dict", ("kv", c_[2][1][0], c_[2][1][1]), c_[3])
+            if fname == "dict" and c_[1] == "dict":
+                return c_     # dict({k: v for ...}) is a new dict with the same entries
+        if isinstance(f, ast.Attribute) and f.attr == "fromkeys" and isinstance(f.value, ast.Name) and f.value.id == "dict" and "dict" not in benv \
+                and len(n.args) in (1, 2) and not n.keywords and (len(n.args) == 1 or isinstance(n.args[1], ast.Constant)):
+            # dict.fromkeys(s, c) with a constant c is {k: c for k in s}
+            e2 = dict(benv)
+            tv = self.bind_target(ast.Name(id="\x00fromkeys", ctx=ast.Store()), e2)
+            return ("comp", "dict", ("kv", tv, self.ex(n.args[1], benv) if len(n.args) == 2 else self.ex(ast.Constant(value=None), benv)), ((tv, args[0], ()),))
         kws = [(k.arg, self.ex(k.value, benv)) for k in n.keywords]
         fn_form = self.ex(f, benv)
         if fn_form == (".", ("n", "warnings"), "warn") and args:
@@ -827,6 +855,36 @@ class Normaliser:
             for k in self._inval[mark:]:
                 self.decided.pop(k, None)
 
+    def fork(self, key, fa, fb):
+        """run fa with the test `key` true and fb with it false, each from the present knowledge (what one alternative's effects make uncertain or
+        alias is no business of the other: they are different paths); afterwards both alternatives' uncertainties hold"""
+        saved = dict(self.decided)
+        saved_alias = dict(self.alias)
+        mark = len(self._inval)
+        self.decided = dict(saved)
+        self.decided[key] = True
+        try:
+            ra = fa()
+            alias_a = self.alias
+            self.alias = dict(saved_alias)
+            self.decided = dict(saved)
+            self.decided[key] = False
+            rb = fb()
+        finally:
+            self.decided = saved
+            for k in self._inval[mark:]:
+                self.decided.pop(k, None)
+        if alias_a != saved_alias:
+            def find_a(x):
+                while alias_a.get(x, x) != x:
+                    x = alias_a[x]
+                return x
+            for x in list(alias_a):
+                r = find_a(x)
+                if r != x:
+                    self.alias_link(x, r)
+        return ra, rb
+
     def names_read(self, stmt_lists) -> set:
         """names that occur (in any role but a plain store) in the given statement lists; cached per list"""
         out = set()
@@ -878,14 +936,29 @@ class Normaliser:
     def touched_by(self, stmts, env) -> set:
         """closed names of everything the statements may rebind or mutate: stored local names (as variables), roots of stores / mutator calls"""
         out, rebound = set(), set()
+        # variables of comprehensions / inner loops stand for items of what they range over
+        item_of: Dict[str, set] = {}
+        for st in stmts:
+            for n in ast.walk(st):
+                if isinstance(n, (ast.comprehension, ast.For)):
+                    src = _may_alias(n.iter)
+                    for x in ast.walk(n.target):
+                        if isinstance(x, ast.Name) and src:
+                            item_of.setdefault(x.id, set()).update(src)
+        seen_roots = set()
 
         def closed_root(r):
-            if r is None:
+            if r is None or r in seen_roots:
                 return
+            seen_roots.add(r)
+            for src in item_of.get(r, ()):
+                closed_root(src)
             if r in env:
                 cr = self._root(env[r])
                 if cr is not None:
                     out.add(cr)
+                if not isinstance(env[r], ast.Name):
+                    out.update(_may_alias(env[r]))   # the name stands for an expression (`both = (ms, ys)` kept as the display): what that may be or hold
             else:
                 out.add(r)
             out.add(OP + r)
@@ -990,8 +1063,7 @@ class Normaliser:
             return [made]
         key, _ = self.tkey(ife.test)
         _, t = self.test(ife.test, {})
-        a = self.under(key, True, lambda: self.emit(kind, exprs, make))    # the positive core holds
-        b = self.under(key, False, lambda: self.emit(kind, exprs, make))
+        a, b = self.fork(key, lambda: self.emit(kind, exprs, make), lambda: self.emit(kind, exprs, make))    # a: the positive core holds
         return self.mk_if(t, a, b)
 
     # ================================================================================================ statements
@@ -1000,11 +1072,15 @@ class Normaliser:
         return any(isinstance(x, ast.Name) and x.id in names for x in ast.walk(expr))
 
     def materialise(self, env, names, eff, rebinding=False):
+        exempt = None
         if not rebinding:
+            given = [n_ for n_ in names if n_.startswith(OP)] or list(names)
+            if given and all(n_ in self.item_paths for n_ in given):
+                exempt = set.intersection(*[self.item_paths[n_] for n_ in given])   # mutated through loop variables only: their containers stay the objects they are
             names = self.aliases_of(names)   # mutating an object changes what every name for it shows
-        self._materialise(env, names, eff, rebinding)
+        self._materialise(env, names, eff, rebinding, exempt)
 
-    def _materialise(self, env, names, eff, rebinding=False):
+    def _materialise(self, env, names, eff, rebinding=False, exempt=None):
         """bindings whose value mentions something that is about to change become variables of their own.  rebinding=False: the named objects are
         about to be mutated -- a name that simply *is* one of them stays an alias (a later mutation through it is then seen as a mutation of the
         same object); rebinding=True: the named variables are about to be rebound -- an alias must keep the present value"""
@@ -1014,6 +1090,10 @@ class Normaliser:
                 continue   # the variable's own entry
             if not rebinding and isinstance(e, ast.Name) and e.id in names:
                 continue
+            if exempt and isinstance(e, (ast.Attribute, ast.Subscript)) and ast.dump(e) in exempt:
+                continue
+            if not rebinding and _reference_structure(e):
+                continue   # a tuple of names only refers to the objects: mutating them does not change which objects it holds
             if self.mentions(e, names):
                 eff.extend(self.emit("bind", [e], lambda fs, nm=nm: ("bind", self.vform(nm), fs[0])))
                 env[nm] = ast.Name(id=OP + nm, ctx=ast.Load())
@@ -1256,6 +1336,14 @@ class Normaliser:
             if isinstance(s, (ast.Import, ast.ImportFrom)):
                 eff.append(("import", ast.dump(s)))
                 continue
+            hdr = _header_exprs(s)
+            if hdr and any(isinstance(x, ast.Call) and isinstance(x.func, ast.Attribute) and x.func.attr in MUTATORS for e_ in hdr for x in ast.walk(e_)):
+                # an expression of this statement mutates an object (`u = ms.pop()`, `return (ms.append(1), t)`, `if stack.pop():`, `[c.add(1) for c in both]`):
+                # what was computed from that object so far is bound before it, not read from the changed object later
+                _, mut_ = self.touched_by([ast.Expr(value=e_) for e_ in hdr], env)
+                if mut_:
+                    self.materialise(env, mut_, eff)
+                    self.invalidate(self.aliases_of(mut_))
             if isinstance(s, ast.Assign):
                 v = self.subst(s.value, env)
                 pure = self.pure(s.value)
@@ -1296,11 +1384,16 @@ class Normaliser:
                 else:
                     v2 = self.subst(v, env)
                     r = self._root(v2.func) if isinstance(v2, ast.Call) else None
-                    if r is not None:
-                        self.materialise(env, {r}, eff)
+                    # a call made for its effect: the effect is on the object it is a method of or on what it is given
+                    roots = ({r} if r is not None else set())
+                    if isinstance(v2, ast.Call) and not (isinstance(v2.func, ast.Name) and v2.func.id in NO_ARG_EFFECT):
+                        for a_ in list(v2.args) + [k_.value for k_ in v2.keywords]:
+                            roots |= _may_alias(a_)
+                    if roots:
+                        self.materialise(env, roots, eff)
                     eff.extend(self.emit("do", [v2], lambda fs: ("do", fs[0])))
-                    if r is not None:
-                        self.invalidate({r})
+                    if roots:
+                        self.invalidate(self.aliases_of(roots))
                 continue
             if isinstance(s, ast.Return):
                 eff.extend(self.emit("return", [self.subst(s.value, env)], lambda fs: ("return", fs[0])))
@@ -1452,8 +1545,8 @@ class Normaliser:
             key, kpos = self.tkey(ife.test)
             _, t = self.test(ife.test, {})
             # a: the positive core of the inner test holds; b: it does not
-            ea, enva, da = self.under(key, True, lambda: self.do_if(test, body, orelse, rest, dict(env), cont))
-            eb, envb, db = self.under(key, False, lambda: self.do_if(test, body, orelse, rest, dict(env), cont))
+            (ea, enva, da), (eb, envb, db) = self.fork(key, lambda: self.do_if(test, body, orelse, rest, dict(env), cont),
+                                                       lambda: self.do_if(test, body, orelse, rest, dict(env), cont))
             core = ife.test if kpos else ast.UnaryOp(op=ast.Not(), operand=ife.test)   # true exactly in alternative a
             if not da and not db:
                 out = [] if (not ea and not eb) else self.mk_if(t, ea, eb)
@@ -1478,19 +1571,22 @@ class Normaliser:
             arm = a_st if self.known(tkey) else b_st
             return self.single_arm(arm, rest, env, cont)
         if self.may_leave(a_st) or self.may_leave(b_st):
-            ea, _ = self.under(tkey, True, lambda: self.block(a_st, dict(env), (rest,) + tuple(cont)))
-            eb, _ = self.under(tkey, False, lambda: self.block(b_st, dict(env), (rest,) + tuple(cont)))
+            (ea, _), (eb, _) = self.fork(tkey, lambda: self.block(a_st, dict(env), (rest,) + tuple(cont)), lambda: self.block(b_st, dict(env), (rest,) + tuple(cont)))
             return self.mk_if(t, ea, eb), env, True
         self.sunk = False
         live = self.live_after(rest, cont)
-        ea, enva = self.with_live(live, lambda: self.under(tkey, True, lambda: self.block(a_st, dict(env), ())))
-        sunk_a, self.sunk = self.sunk, False
-        eb, envb = self.with_live(live, lambda: self.under(tkey, False, lambda: self.block(b_st, dict(env), ())))
-        sunk_b, self.sunk = self.sunk, False
+
+        def arm(st):
+            def run():
+                self.sunk = False
+                r_ = self.with_live(live, lambda: self.block(st, dict(env), ()))
+                s_, self.sunk = self.sunk, False
+                return r_, s_
+            return run
+        ((ea, enva), sunk_a), ((eb, envb), sunk_b) = self.fork(tkey, arm(a_st), arm(b_st))
         if sunk_a or sunk_b:
             # an if nested in an arm continued what follows it inside its own arms: so must this one
-            ea, _ = self.under(tkey, True, lambda: self.block(a_st, dict(env), (rest,) + tuple(cont)))
-            eb, _ = self.under(tkey, False, lambda: self.block(b_st, dict(env), (rest,) + tuple(cont)))
+            (ea, _), (eb, _) = self.fork(tkey, lambda: self.block(a_st, dict(env), (rest,) + tuple(cont)), lambda: self.block(b_st, dict(env), (rest,) + tuple(cont)))
             return self.mk_if(t, ea, eb), env, True
         # a name bound differently in the two arms matters only if something afterwards reads it
         differing = {k for k in set(enva) | set(envb) if not (k in enva and k in envb and (enva[k] is envb[k] or ast.dump(enva[k]) == ast.dump(envb[k])))}
@@ -1511,8 +1607,7 @@ class Normaliser:
             return [], self.merge_envs(tpos, enva, envb), False
         # effects in an arm and different bindings afterwards: re-evaluating the test later could give another answer, so what follows
         # is continued inside both arms (mk_if moves a common tail back out)
-        ea, _ = self.under(tkey, True, lambda: self.block(a_st, dict(env), (rest,) + tuple(cont)))
-        eb, _ = self.under(tkey, False, lambda: self.block(b_st, dict(env), (rest,) + tuple(cont)))
+        (ea, _), (eb, _) = self.fork(tkey, lambda: self.block(a_st, dict(env), (rest,) + tuple(cont)), lambda: self.block(b_st, dict(env), (rest,) + tuple(cont)))
         return self.mk_if(t, ea, eb), env, True
 
     @staticmethod
@@ -1541,6 +1636,32 @@ class Normaliser:
         assigned = [n for n in self.stores_in(s.body + s.orelse)]
         tnames = _bound_names(s.target) if isinstance(s, ast.For) else set()
         carried = [nm for nm in assigned if nm not in tnames and nm not in temps]
+        if isinstance(s, ast.For):
+            # the items are (parts of) what the iterable holds: a mutation through the loop variable is a mutation of those objects
+            it_closed = self.subst(s.iter, env)
+            for other in _may_alias(it_closed):
+                for nm in tnames:
+                    if other != OP + nm:
+                        self.alias_link(OP + nm, other)
+            # ... but not of the container itself: when the iterable is a plain path (`t.subgroup`), that path and the paths it goes through still denote
+            # the same objects afterwards (attribute and item reads are taken to be plain field reads)
+            prefixes = set()
+            p_ = it_closed
+            while isinstance(p_, (ast.Attribute, ast.Subscript, ast.Name)):
+                if isinstance(p_, ast.Subscript) and not isinstance(p_.slice, ast.Constant):
+                    prefixes = set()
+                    break
+                prefixes.add(ast.dump(p_))
+                if isinstance(p_, ast.Name):
+                    break
+                p_ = p_.value
+            else:
+                prefixes = set()
+            for nm in tnames:
+                if prefixes and isinstance(s.target, ast.Name):
+                    self.item_paths[OP + nm] = prefixes
+                else:
+                    self.item_paths.pop(OP + nm, None)
         # what the loop may change is settled before it starts: values computed so far from objects it mutates, tests decided about them
         self.before_nested([x_ for x_ in s.body + s.orelse] + ([ast.Assign(targets=[s.target], value=ast.Constant(value=None))] if isinstance(s, ast.For) else []), env, eff)
         # the values the loop starts from are bound first, in an order that does not depend on names or on the layout of the loop body
@@ -1596,6 +1717,7 @@ class _Prepass(ast.NodeTransformer):
         i = 0
         body = [_setdefault_as_if(s) for s in body]
         body = [s2 for s in body for s2 in _split_tuple_assign(s)]
+        body = [s2 for s in body for s2 in _name_fresh_items(s)]
         # pre-order: an empty container initialised right before an if whose arms fill it moves into the arms
         pre = []
         k = 0
@@ -1690,9 +1812,46 @@ class _Prepass(ast.NodeTransformer):
                 return body[:i] + [ast.fix_missing_locations(ast.copy_location(new, st))]
         return body
 
+    _fused = [0]
+
     def visit_For(self, node):
+        it = node.iter
+        if isinstance(it, ast.GeneratorExp) and len(it.generators) == 1 and not it.generators[0].is_async \
+                and not any(isinstance(x, (ast.Lambda, ast.NamedExpr, ast.Yield, ast.YieldFrom, ast.Await)) for x in ast.walk(it)):
+            # `for t in (E for x in S if c): body` is `for x in S: if c: t = E; body` -- the generator is consumed item by item, right here
+            import copy
+            g = it.generators[0]
+            _Prepass._fused[0] += 1
+            mapping = {x.id: "\x01fz%d_%s" % (_Prepass._fused[0], x.id) for x in ast.walk(g.target) if isinstance(x, ast.Name)}
+            ren = _Rename(mapping)
+            body = [ast.Assign(targets=[node.target], value=ren.visit(copy.deepcopy(it.elt)))] + list(node.body)
+            if g.ifs:
+                conds = [ren.visit(copy.deepcopy(c)) for c in g.ifs]
+                body = [ast.If(test=conds[0] if len(conds) == 1 else ast.BoolOp(op=ast.And(), values=conds), body=body, orelse=[])]
+            node.target = ren.visit(copy.deepcopy(g.target))
+            node.iter = g.iter
+            node.body = body
+            ast.fix_missing_locations(node)
+        pre = None
+        it = node.iter
+        if isinstance(it, ast.Call) and isinstance(it.func, ast.Name) and it.func.id == "enumerate" and isinstance(node.target, (ast.Tuple, ast.List)) and len(node.target.elts) == 2 \
+                and isinstance(node.target.elts[0], ast.Name) and not any(isinstance(a, ast.Starred) for a in it.args) \
+                and ((len(it.args) == 2 and not it.keywords) or (len(it.args) == 1 and len(it.keywords) == 1 and it.keywords[0].arg == "start")):
+            # `for i, x in enumerate(S, k)` counts from k: `for j, x in enumerate(S): i = j + k` with k evaluated once, before the loop
+            _Prepass._fused[0] += 1
+            start = it.args[1] if len(it.args) == 2 else it.keywords[0].value
+            jn, kn = "\x01en%d_j" % _Prepass._fused[0], "\x01en%d_k" % _Prepass._fused[0]
+            pre = ast.copy_location(ast.Assign(targets=[ast.Name(id=kn, ctx=ast.Store())], value=start), node)
+            first = ast.Assign(targets=[ast.Name(id=node.target.elts[0].id, ctx=ast.Store())],
+                               value=ast.BinOp(left=ast.Name(id=jn, ctx=ast.Load()), op=ast.Add(), right=ast.Name(id=kn, ctx=ast.Load())))
+            node.iter = ast.Call(func=it.func, args=[it.args[0]], keywords=[])
+            node.target = type(node.target)(elts=[ast.Name(id=jn, ctx=ast.Store()), node.target.elts[1]], ctx=ast.Store())
+            node.body = [first] + list(node.body)
+            ast.fix_missing_locations(pre)
+            ast.fix_missing_locations(node)
         node.body = self._guards(list(node.body)) or [ast.Pass()]
-        return self.generic_visit(node)
+        node = self.generic_visit(node)
+        return [pre, node] if pre is not None else node
 
     def visit_While(self, node):
         node.body = self._guards(list(node.body)) or [ast.Pass()]
@@ -2129,7 +2288,18 @@ def inline_procedures(fn, helpers, methods):
         if body is None:
             return None
         body = [_Rename(mapping).visit(st) for st in body]
-        binds = [ast.Assign(targets=[ast.Name(id=mapping[p], ctx=ast.Store())], value=given[p]) for p in order]
+        # a generator expression handed to a parameter that the helper only iterates once, in a top-level loop, is consumed right there
+        direct = set()
+        for p_ in order:
+            if isinstance(given[p_], ast.GeneratorExp):
+                uses = [x for st in body for x in ast.walk(st) if isinstance(x, ast.Name) and x.id == mapping[p_]]
+                loops = [st for st in body if isinstance(st, ast.For) and isinstance(st.iter, ast.Name) and st.iter.id == mapping[p_]]
+                before = body[:body.index(loops[0])] if len(loops) == 1 else []
+                quiet = all(isinstance(st, ast.Assign) and not any(isinstance(x, (ast.Call, ast.Yield, ast.YieldFrom, ast.Await, ast.NamedExpr)) for x in ast.walk(st)) for st in before)
+                if len(uses) == 1 and len(loops) == 1 and uses[0] is loops[0].iter and quiet:
+                    loops[0].iter = given[p_]
+                    direct.add(p_)
+        binds = [ast.Assign(targets=[ast.Name(id=mapping[p], ctx=ast.Store())], value=given[p]) for p in order if p not in direct]
         stmts = binds + body
         for st in stmts:
             ast.fix_missing_locations(st)
@@ -2188,6 +2358,41 @@ def inline_procedures(fn, helpers, methods):
 
     fn.body = do_block(fn.body, 0)
     return fn
+
+
+def _reference_structure(e) -> bool:
+    if isinstance(e, (ast.Name, ast.Constant)):
+        return True
+    if isinstance(e, ast.Tuple):
+        return all(_reference_structure(x) for x in e.elts)
+    return False
+
+
+_FRESH = [0]
+
+
+def _name_fresh_items(s):
+    """`t = ([], {})` (also as the last link of `t = a, b = [], {}`): the new containers get names of their own first and the tuple is a tuple of those names.
+    A tuple cannot be changed, so only its items matter; named, they are the same objects whichever way they are reached (`t[0]`, `a`, `for c in t`)."""
+    if not (isinstance(s, ast.Assign) and isinstance(s.value, ast.Tuple) and not any(isinstance(e, ast.Starred) for e in s.value.elts)):
+        return [s]
+    fresh = (ast.List, ast.Dict, ast.Set, ast.ListComp, ast.DictComp, ast.SetComp)
+    if not any(isinstance(e, fresh) for e in s.value.elts) or not all(isinstance(e, fresh + (ast.Name, ast.Constant)) for e in s.value.elts):
+        return [s]
+    if len(s.targets) == 1 and isinstance(s.targets[0], (ast.Tuple, ast.List)):
+        return [s]    # plain unpacking: nothing keeps the tuple
+    _FRESH[0] += 1
+    out, elts = [], []
+    for i, e in enumerate(s.value.elts):
+        if isinstance(e, fresh):
+            nm = "\x01tp%d_%d" % (_FRESH[0], i)
+            out.append(ast.fix_missing_locations(ast.copy_location(ast.Assign(targets=[ast.Name(id=nm, ctx=ast.Store())], value=e), s)))
+            elts.append(ast.Name(id=nm, ctx=ast.Load()))
+        else:
+            elts.append(e)
+    new = ast.Assign(targets=s.targets, value=ast.Tuple(elts=elts, ctx=ast.Load()))
+    out.append(ast.fix_missing_locations(ast.copy_location(new, s)))
+    return out
 
 
 def _split_tuple_assign(s):
@@ -2826,6 +3031,21 @@ def _evaluates(form, e) -> bool:
     return any(_evaluates(y, e) for y in form if isinstance(y, tuple))
 
 
+def _test_cannot_raise(t) -> bool:
+    """truth test of a plain name, constant or lambda, identity comparisons and and/or/not of such: evaluating it cannot raise"""
+    if not isinstance(t, tuple) or not t:
+        return False
+    if t[0] in ("n", "v", "k", "c", "lambda"):
+        return True
+    if t[0] == "not" and len(t) == 2:
+        return _test_cannot_raise(t[1])
+    if t[0] == "bool" and len(t) == 3:
+        return all(_test_cannot_raise(x) for x in t[2])
+    if t[0] == "cmp" and len(t) == 4 and t[1] == "Is":
+        return _test_cannot_raise(t[2]) and _test_cannot_raise(t[3])
+    return False
+
+
 def _effect_evaluates(eff, e) -> bool:
     k = eff[0]
     if k in ("do", "return", "raise", "yield", "yieldfrom", "eval"):
@@ -2835,7 +3055,7 @@ def _effect_evaluates(eff, e) -> bool:
     if k in ("if", "while"):
         if _evaluates(eff[1], e):
             return True
-        if k == "if" and isinstance(eff[1], tuple) and eff[1] and eff[1][0] in ("n", "v", "k") and eff[2] and eff[3]:
+        if k == "if" and _test_cannot_raise(eff[1]) and eff[2] and eff[3]:
             return _effect_evaluates(eff[2][0], e) and _effect_evaluates(eff[3][0], e)   # the test is a plain name: whichever arm runs evaluates e first
         return False
     if k == "for":
@@ -2984,6 +3204,7 @@ def _mutated_names(fn, root_of) -> set:
         r = find(x)
         return {y for y in list(parent) if find(y) == r} | {x}
     mutated, inside = set(), set()   # objects mutated themselves / names something inside which is mutated
+    held_mutated = set()             # containers an item of which is mutated through another name
     work = [("obj", r) for r, d in events] + [("in", r) for r, d in events if d > 0]   # the root stays one object in either case
     while work:
         kind, x = work.pop()
@@ -2996,10 +3217,13 @@ def _mutated_names(fn, root_of) -> set:
                 for z in derived.get(y, ()):
                     if z not in mutated:
                         work.append(("obj", z))
-            # x may have been taken out of a container: it may be anything put into that container
+            # x may have been taken out of a container: it may be anything put into that container -- and the container is one object holding the
+            # mutated one (`yes_no = yes, no = [], []`: the display must be built once, not once per name)
             for c, es in list(elems.items()):
                 if es & cls(x):
                     for c2 in cls(c):
+                        if c2 not in mutated and c2 not in held_mutated:
+                            held_mutated.add(c2)
                         for y in holds.get(c2, ()):
                             if y not in mutated:
                                 work.append(("obj", y))
@@ -3024,17 +3248,50 @@ def _mutated_names(fn, root_of) -> set:
             stores[n.arg] += 1
         if isinstance(n, ast.Assign) and len(n.targets) == 1 and isinstance(n.targets[0], ast.Name) and isinstance(n.value, ast.Name):
             alias_stores[n.targets[0].id] += 1
-    return {x for x in mutated if not (stores.get(x, 0) > 0 and stores.get(x) == alias_stores.get(x))}
+    # a container only ever bound to a tuple display of plain names / constants need not be one object: the items are named, the tuple cannot change
+    tuple_of_names = defaultdict(int)
+    for n in ast.walk(fn):
+        if isinstance(n, ast.Assign) and isinstance(n.value, ast.Tuple) and all(isinstance(e, (ast.Name, ast.Constant)) for e in n.value.elts):
+            for t in n.targets:
+                if isinstance(t, ast.Name):
+                    tuple_of_names[t.id] += 1
+    held_mutated = {x for x in held_mutated if not (stores.get(x, 0) > 0 and stores.get(x) == tuple_of_names.get(x))}
+    # ... nor does a name that only ever stands for a path from another name (`t = tokens[0]`: read again, the path gives the same object)
+    made_here = set()
+    for n in ast.walk(fn):
+        if isinstance(n, (ast.Assign, ast.AnnAssign)) and n.value is not None:
+            v = n.value
+            while isinstance(v, (ast.Attribute, ast.Subscript)):
+                v = v.value
+            if not isinstance(v, ast.Name):
+                for t in (n.targets if isinstance(n, ast.Assign) else [n.target]):
+                    for x in ast.walk(t):
+                        if isinstance(x, ast.Name):
+                            made_here.add(x.id)
+    held_mutated &= made_here
+    return {x for x in mutated | held_mutated if not (stores.get(x, 0) > 0 and stores.get(x) == alias_stores.get(x))}
+
+
+def _ast_pure(e) -> bool:
+    """no call of a mutating method / impure builtin, no yield / await / walrus in the expression (dropping its evaluation loses nothing, by the stated assumption)"""
+    for x in ast.walk(e):
+        if isinstance(x, ast.Call) and isinstance(x.func, ast.Attribute) and x.func.attr in MUTATORS:
+            return False
+        if isinstance(x, ast.Call) and isinstance(x.func, ast.Name) and x.func.id in IMPURE_FUNCS:
+            return False
+        if isinstance(x, (ast.Yield, ast.YieldFrom, ast.Await, ast.NamedExpr)):
+            return False
+    return True
 
 
 def _fold_literal(n):
-    """len / constant subscript of a list or tuple display, comparison of two number literals: their values"""
+    """len / constant subscript of a list or tuple display (whose other elements are side-effect free), comparison of two number literals: their values"""
     if isinstance(n, ast.Call) and isinstance(n.func, ast.Name) and n.func.id == "len" and len(n.args) == 1 and not n.keywords \
-            and isinstance(n.args[0], (ast.List, ast.Tuple)) and not any(isinstance(e, ast.Starred) for e in n.args[0].elts):
+            and isinstance(n.args[0], (ast.List, ast.Tuple)) and not any(isinstance(e, ast.Starred) for e in n.args[0].elts) and all(_ast_pure(e) for e in n.args[0].elts):
         return ast.Constant(value=len(n.args[0].elts))
     if isinstance(n, ast.Subscript) and isinstance(n.value, (ast.List, ast.Tuple)) and isinstance(n.slice, ast.Constant) and isinstance(n.slice.value, int) \
             and not isinstance(n.slice.value, bool) and not any(isinstance(e, ast.Starred) for e in n.value.elts) and -len(n.value.elts) <= n.slice.value < len(n.value.elts) \
-            and isinstance(n.ctx, ast.Load):
+            and isinstance(n.ctx, ast.Load) and all(_ast_pure(e) for e in n.value.elts):
         return n.value.elts[n.slice.value]
     if isinstance(n, ast.Compare) and len(n.ops) == 1 and isinstance(n.left, ast.Constant) and isinstance(n.comparators[0], ast.Constant):
         a, b = n.left.value, n.comparators[0].value
@@ -3044,6 +3301,32 @@ def _fold_literal(n):
             if op in table:
                 return ast.Constant(value=table[op])
     return n
+
+
+NO_ARG_EFFECT = {"print", "len", "isinstance", "repr", "str", "int", "float", "bool", "id", "type", "hash", "sorted", "sum", "min", "max", "any", "all", "abs", "round"}
+
+
+def _header_exprs(s):
+    """the expressions a statement evaluates itself (those of nested blocks are the blocks' business)"""
+    if isinstance(s, ast.Assign):
+        return [s.value] + [t for t in s.targets if not isinstance(t, ast.Name)]
+    if isinstance(s, ast.AugAssign):
+        return [s.value] + ([s.target] if not isinstance(s.target, ast.Name) else [])
+    if isinstance(s, ast.AnnAssign):
+        return ([s.value] if s.value is not None else []) + ([s.target] if not isinstance(s.target, ast.Name) else [])
+    if isinstance(s, (ast.Expr, ast.Return)):
+        return [s.value] if s.value is not None else []
+    if isinstance(s, ast.Raise):
+        return [x for x in (s.exc, s.cause) if x is not None]
+    if isinstance(s, ast.Assert):
+        return [x for x in (s.test, s.msg) if x is not None]
+    if isinstance(s, (ast.If, ast.While)):
+        return [s.test]
+    if isinstance(s, ast.For):
+        return [s.iter]
+    if isinstance(s, ast.With):
+        return [i.context_expr for i in s.items]
+    return []
 
 
 def _may_alias(e) -> set:
@@ -3139,7 +3422,8 @@ def _inline_single_use(effs):
                         acc = [0, 0]
                         count_reads(effs_ref[0], b[1], acc)
                         parts = first_part(nxt)
-                        if acc == [1, 1] and parts and any(contains(nxt[p_], b[1]) for p_ in parts) and isinstance(nxt, tuple):
+                        if acc == [1, 1] and parts and any(contains(nxt[p_], b[1]) for p_ in parts) and isinstance(nxt, tuple) \
+                                and all(_form_pure(nxt[p_]) for p_ in parts):   # (a mutating call in the same expression may come before the read)
                             new = list(nxt)
                             for p_ in parts:
                                 new[p_] = subst(nxt[p_], b[1], b[2])
